@@ -17,7 +17,9 @@ def _inode_cases():
         if n in ("file", "file_ext"):
             for nb, fr, tier in ((0, 1, "quick"), (1, 0, "quick"), (2, 1, "quick"), (2, 0, "thorough"), (0, 0, "thorough")):
                 out.append(dict(id="%s_b%d_f%d" % (n, nb, fr), tier=tier,
-                                defines={"ITYPE": t, "NBLK": nb, "FRAG": fr}))
+                                defines={"ITYPE": t, "NBLK": nb, "FRAG": fr},
+                                unwindset=["read_inode_file.0:%d" % (nb + 1), "read_inode_file_ext.0:%d" % (nb + 1),
+                                           "write_block_sizes.0:%d" % (nb + 1)]))
         elif n in ("slink", "slink_ext"):
             for tl, tier in ((1, "quick"), (5, "quick"), (0, "thorough"), (12, "thorough")):
                 out.append(dict(id="%s_t%d" % (n, tl), tier=tier, defines={"ITYPE": t, "TL": tl}))
@@ -25,12 +27,12 @@ def _inode_cases():
             for ni, tier in ((0, "quick"), (1, "quick"), (2, "thorough")):
                 out.append(dict(id="%s_i%d" % (n, ni), tier=tier, defines={"ITYPE": t, "NIDX": ni}))
         else:
-            out.append(dict(id=n, tier="quick", defines={"ITYPE": t}))
+            out.append(dict(id=n, tier="quick", defines={"ITYPE": t}, label="proved"))
     return out
 
 HARNESSES = [
     dict(name="inode_roundtrip", file="inode_roundtrip.c",
-         label="bounded(blocks<=2,target<=12,index<=2)", timeout=300, unwind=66,
+         label="bounded(blocks<=2,target<=12,index<=2)", timeout=300, unwind=34,
          cases=_inode_cases()),
     dict(name="packfile_kinds", file="packfile_kinds.c",
          label="bounded(path length 3)", unwind=12, timeout=300,
@@ -43,4 +45,18 @@ HARNESSES = [
          unwind=8, timeout=300,
          cases=[dict(id=k, defines={"KIND": i}, tier="quick")
                 for i, k in enumerate(("dir", "reg", "slink", "hardlink", "blk", "chr", "fifo", "sock"))]),
+    # sqfs_id_table_id_to_index: w6's parametrised harness (harness/C03/ids_index.c) with the
+    # C01 obligation names: index_valid/first_match/append_new = ids.roundtrip, refuse = 65536th id
+    dict(name="ids", file="../C03/ids_index.c", label="proved", timeout=300,
+         loops=["sqfs_id_table_id_to_index"], loop_tables=["C03"], flags=["--arrays-uf-always"],
+         defines={"P": '"C01"', "IDS_REFUSE": None},
+         cases=[dict(id="all", tier="quick")]),
+    dict(name="node_to_inode", file="node_to_inode.c", label="bounded(target length 3)",
+         unwind=8, timeout=300, include_dirs=["lib/common/src/writer"],
+         nochecks=["--conversion-check"],
+         cases=[dict(id=k, defines={"KIND": i}, tier="quick")
+                for i, k in enumerate(("dir", "reg_basic", "reg_ext", "slink", "blk", "chr", "fifo", "sock"))]),
+    dict(name="dir_inode", file="dir_inode.c", label="proved", timeout=300, unwind=3,
+         nochecks=["--conversion-check"],
+         fp={"destroy": None, "copy": None, "*": None}),
 ]
